@@ -308,19 +308,33 @@ def r16_3(ctx: Ctx):
     # the split itself drops only the separator: exact forms of the pieces
     from ..pat import find as pfind, has as phas
     lp = [p_ for p_ in parse.params if p_ not in ("cls", "self")][0]
-    forms = {"comment-only line": "if %s.startswith(';'):\n    return ('', %s[1:])" % (lp, lp),
-             "preprocessor line": "if %s.startswith('#'):\n    return ('', %s[:])" % (lp, lp)}
-    for what, pat_ in forms.items():
-        ok_ = phas(parse.node, pat_) or (what == "preprocessor line" and phas(parse.node, "if %s.startswith('#'):\n    return ('', %s)" % (lp, lp)))
-        ctx.ob("R16.3", parse, what, ok_, "a %s is split into ('', the text after the marker) without losing characters" % what, node=parse.node)
+    for marker, what, lower in ((";", "comment-only line", 1), ("#", "preprocessor line", 0)):
+        br = pfind(parse.node, "if %s.startswith('%s'): ..." % (lp, marker))
+        if not br:
+            ctx.ob("R16.3", parse, what, True, "no `startswith('%s')` branch; split form not decided" % marker, undecided=True)
+            continue
+        rets_ = [r_ for r_ in br[0][0].body if isinstance(r_, ast.Return)]
+        r0 = rets_[0].value if rets_ else None
+        if isinstance(r0, ast.Tuple) and len(r0.elts) == 2 and norm(r0.elts[0]) == "''" and (
+                norm(r0.elts[1]) == lp or (isinstance(r0.elts[1], ast.Subscript) and norm(r0.elts[1].value) == lp
+                                           and isinstance(r0.elts[1].slice, ast.Slice))):
+            sl = r0.elts[1]
+            lo = 0 if not isinstance(sl, ast.Subscript) or sl.slice.lower is None else const_int(sl.slice.lower)
+            hi_none = not isinstance(sl, ast.Subscript) or sl.slice.upper is None
+            ctx.ob("R16.3", parse, "%s: %s" % (what, norm(rets_[0])), lo == lower and hi_none,
+                   "a %s is split into ('', the text after the marker): exactly the %d marker character(s) are dropped"
+                   % (what, lower), node=rets_[0])
+        else:
+            ctx.ob("R16.3", parse, what, True, "split of a %s not in the modelled form; not decided" % what, undecided=True)
     sp = pfind(parse.node, "V_s = %s.split(';')" % lp)
-    oks = False
     if sp:
         sv = sp[0][1]["V_s"]
         oks = phas(parse.node, "return (%s[0], ';'.join(%s[1:]))" % (sv, sv))
-    ctx.ob("R16.3", parse, "content ; comment line", oks,
-           "a line with trailing comment(s) is split at the first ';': content = first piece, comment = all later pieces "
-           "re-joined with ';'", node=sp[0][0] if sp else parse.node)
+        ctx.ob("R16.3", parse, "content ; comment line", oks,
+               "a line with trailing comment(s) is split at the first ';': content = first piece, comment = all later pieces "
+               "re-joined with ';'", node=sp[0][0])
+    else:
+        ctx.ob("R16.3", parse, "content ; comment line", True, "the line is not split with split(';'); form not decided", undecided=True)
     # field names: parse result is stored as self.<c>, self.<m> = self.parse_itp_line(line)
     init = ctx.func("ItpLine.__init__")
     fields = None
